@@ -97,10 +97,43 @@ def import_under(host):
     pairing._DEFAULT_CODES = None
 
 
-def renderings(rnd):
+def mined_pools():
+    """constants the BSD decoders' code mentions under the CURRENTLY imported host platform (errno.ETIMEDOUT is 60 on
+    Darwin and 110 on Linux: a decoder comparing with it behaves differently per host)"""
+    from . import mine
+    from .pairing import AUDIT
+    mine.reset()
+    pools = {}
+    for name in sorted(n for n, a in AUDIT.items() if n.startswith('BSC_') and a.get('cls')):
+        m = mine.mined(name)
+        if m['specific'] or m['tuples'] or m['common']:
+            pools[name] = m
+    return pools
+
+
+def renderings(rnd, pools=None):
     from .render import Prober, tokenize
+    from . import mine
     pr = Prober(rnd)
     out = {}
+    # mined constants (union over the host platforms) planted into START words, every small error number they hold
+    from .pairing import AUDIT as _A
+    prnd = random.Random(4711)
+    for name, m in sorted((pools or {}).items()):
+        ok = mine.audit_allowed(_A[name], skip=(4,))
+        dom = _A[name]['dom']
+        b0 = [p if dom[j] is None else (dom[j][0] if isinstance(dom[j], list) and dom[j] else 0x20006601 if dom[j] == 'ioctl' else 0)
+              for j, p in enumerate([3, 1 << 40, 77, 5])] + [0, 1, 2, 3]
+        base = lambda: list(b0)      # noqa
+        errs = sorted({0, 4, 35, 60, 110} | {v for v in m['specific'] + m['common'] if 0 < v < 256})[:24]
+        for i, (vec, pl) in enumerate(mine.plant_vectors(name, base, ok, prnd, budget=25, max_singles=80, pool=m)):
+            if len(pl) < 2 and i % 4:
+                continue
+            for err in errs:
+                try:
+                    out[('plant:%s:%d' % (name, i), err)] = pr.render(name, list(vec[:4]), [err] + list(vec[5:]), [b'/p']) or 'none'
+                except Exception as ex:
+                    out[('plant:%s:%d' % (name, i), err)] = 'RAISED:' + type(ex).__name__
 
     def param(name, S, k):
         try:
@@ -125,7 +158,7 @@ def renderings(rnd):
         out[('sock', st)] = param('BSC_socket', [2, st, 5, 6], 1)
     # every BSD decoder under a few argument patterns and the error numbers on which platforms disagree
     from .pairing import AUDIT
-    pats = [[0, 0, 0, 0], [1, 1, 1, 1], [1, 0, 1, 0], [0, 1, 0, 1], [3, 1 << 40, 77, 5]]
+    pats = [[0, 0, 0, 0], [1, 1, 1, 1], [1, 0, 1, 0], [0, 1, 0, 1], [3, 1 << 40, 77, 5], [9, 0, 1, 1], [9, 1, 0, 0]]
     for name in sorted(n for n, a in AUDIT.items() if n.startswith('BSC_') and a.get('cls')):
         dom = AUDIT[name]['dom']
         for pi, pat in enumerate(pats):
@@ -150,10 +183,21 @@ def run(ctx):
     ctx.expect_violation(run_tlc('Host_MC', CFG % 'TRUE', ctx.workdir, name='neg_host_indexed', timeout=600,
                                  allow_error=True), 'names taken from the host interpreter')
     per_host = {}
+    pools = {}
     for host in ('real', 'linux', 'darwin', 'other'):
         import_under(host)
-        per_host[host] = renderings(random.Random(ctx.seed))
+        for name, m in mined_pools().items():
+            u = pools.setdefault(name, {'specific': set(), 'common': set(), 'tuples': set()})
+            for k in u:
+                u[k] |= set(m[k])
+    pools = {n: {k: sorted(v) for k, v in u.items()} for n, u in pools.items()}
+    for host in ('real', 'linux', 'darwin', 'other'):
+        import_under(host)
+        per_host[host] = renderings(random.Random(ctx.seed), pools)
     import_under('real')
+    from . import mine
+    mine.reset()
+    ctx.extra['decoders_with_mined_constants'] = len(pools)
     obs = []
     ref = per_host['real']
     for key in ref:
